@@ -98,6 +98,10 @@ def classify(run, res):
     first_err = err.splitlines()[0] if err.strip() else ""
     if res.get("timeout"):
         return ("timeout", "no result within %ds" % run.get("timeout", 0))
+    mm = re.search(r"VERIF-MONITOR ([\w-]+): ([^\n]*)", err)
+    if mm:
+        # a monitor fired (possibly inside an extern "C" frame, where the panic aborts)
+        return ("monitor:" + mm.group(1), norm_msg(mm.group(2)))
     if rc == 70 or "VERIF-PANIC" in err:
         m = re.search(r"VERIF-PANIC: (.*)", err)
         msg = m.group(1) if m else first_err
